@@ -25,15 +25,16 @@ RULE = ("One case = a model (1-2 partition key columns, 0-2 clustering columns, 
         "count / first), Model.create (ttl, timestamp, if_not_exists, explicit None / empty collections), queryset update (scalar "
         "assignment, None, collection assignment, __add/__remove/__append/__prepend/__update with possibly empty collections, iff "
         "conditions with =, !=, <, <=, >, >=, if_exists, ttl, timestamp), queryset delete, and save/update/delete of an instance "
-        "loaded through Model.get (changed scalars, nulled columns, grown/shrunk/replaced collections, iff, if_exists).  Every "
+        "loaded through Model.get (changed scalars, nulled columns, collections grown at the end, the front or both ends in one save, shrunk or replaced, iff, if_exists).  Every "
         "requested value is built from a counter so that no two clauses share a scalar.  Non-trivial: a statement with >= 3 clauses "
         "of >= 2 kinds, or a batch of >= 2 statements, or a collection clause with an empty collection.")
 ASSUMPTIONS = [
     "spec/cqllex.py + spec/cqlterm.py + spec/cqlparse.py stand for Cassandra's lexer and DML grammar; a statement they reject is rejected by Cassandra",
     "the fake session substitutes parameters exactly like Session.execute for simple statements (cassandra.query.bind_params with the session's Encoder)",
     "for save()/update() of a loaded instance the choice between overwriting a collection and partial add/remove/append/prepend is "
-    "left to the mapper (its effect on the row is the business of C35); here every changed column must be touched, no other column, "
-    "and every value must belong to the clause's own column",
+    "left to the mapper (its effect on whole histories is the business of C35); here every changed column must be touched, no other column, "
+    "every value must belong to the clause's own column, and the clauses of one column applied to the loaded value (prepend / append / add / "
+    "remove / element assignment / element deletion, each with the operand bound to its own placeholder) must give the instance's new value",
     "a map assignment through queryset update may be rendered as whole-map assignment or as one element assignment per key",
     "DateTime values are whole seconds (the millisecond conversion defects of C36 are not re-reported here); option combinations "
     "Cassandra itself rejects (custom timestamp with conditions, iff together with if_exists) are not generated",
@@ -107,7 +108,7 @@ def s_qdelete():
 
 
 def s_iupdate():
-    change = st.sampled_from(["set", "set", "none", "grow", "grow_front", "shrink", "replace", "clear", "mix"])
+    change = st.sampled_from(["set", "set", "none", "grow", "grow_front", "grow_both", "grow_both", "grow_both", "shrink", "replace", "clear", "mix"])
     return st.fixed_dictionaries({"op": st.just("iupdate"), "stored": st.lists(st.tuples(st.booleans(), st.sampled_from([1, 2, 3])), min_size=6, max_size=6),
                                   "changes": st.lists(st.tuples(_I, change, _SIZE), min_size=1, max_size=4),
                                   "method": st.sampled_from(["save", "update", "update_kw"]), "opt": s_options()})
@@ -890,6 +891,11 @@ def interpret(case, ctx):
                                     tg = cur + extra_t
                                 elif what == "grow_front":
                                     tg = extra_t + cur
+                                elif what == "grow_both" and cur:
+                                    # new elements at both ends in one save (a list is then updated with a prepend AND an append)
+                                    front_py, front_t = tags.value(col.desc, owner, 1 + size % 2)
+                                    tg = front_t + cur + extra_t
+                                    ctx.label("iupdate:grow-both-ends:" + col.kind + (":batched" if in_batch else ""))
                                 elif what == "shrink" and len(cur) > 1:
                                     tg = cur[:-1]
                                 elif what == "mix" and cur:
@@ -1219,10 +1225,61 @@ def check_owners(ctx, own, tags):
                 return
 
 
+def _canon_of(col, tagged):
+    """comparable python form of a tagged collection value: list -> list, set -> list of json strings, map -> {json key: json value}"""
+    if tagged is None:
+        return None
+    c = json.loads(_vkey(col.tree, tagged))
+    return c
+
+
+def _fold(col, cur, op, keykey, valkey):
+    """value of a collection after one SET / DELETE clause (null == empty)"""
+    v = json.loads(valkey) if valkey is not None else None
+    k = json.loads(keykey) if keykey is not None else None
+    cur = list(cur or [])
+    kind = col.kind
+    if op == "delete":
+        return None
+    if op == "set":
+        return v or None
+    if kind == "List":
+        if op == "add":
+            return (cur + (v or [])) or None
+        if op == "prepend":
+            return ((v or []) + cur) or None
+        if op == "sub":
+            return [x for x in cur if x not in (v or [])] or None
+    elif kind == "Set":
+        if op == "add":
+            return (cur + [x for x in (v or []) if x not in cur]) or None
+        if op in ("sub",):
+            return [x for x in cur if x not in (v or [])] or None
+        if op == "delelem":
+            return [x for x in cur if x != k] or None
+    elif kind == "Map":
+        if op == "setelem":
+            return ([p for p in cur if p[0] != k] + [[k, v]]) or None
+        if op == "sub":
+            return [p for p in cur if p[0] not in (v or [])] or None
+        if op == "delelem":
+            return [p for p in cur if p[0] != k] or None
+    return cur or None
+
+
+def _same_collection(col, a, b):
+    a, b = a or [], b or []
+    if col.kind == "List":
+        return a == b
+    key = lambda x: json.dumps(x, sort_keys=True)  # noqa: E731
+    return sorted(map(key, a)) == sorted(map(key, b))
+
+
 def check_instance(ctx, exp, observed, by_db, pks, tags):
     """save()/update() of a loaded instance: an optional UPDATE followed by an optional DELETE -> number of statements consumed"""
     used = 0
     touched = {}
+    effect = {}
     changed = exp["changed"]
     pk_names = [c.db for c in pks]
     for want_kind in ("update", "delete"):
@@ -1259,6 +1316,15 @@ def check_instance(ctx, exp, observed, by_db, pks, tags):
             ctx.fail(["C37.instance.if_exists", want_kind], "IF EXISTS %r, requested %r" % (got["if_exists"], exp["if_exists"]))
         for c in cols_here:
             touched[c] = touched.get(c, 0) + 1
+        # effect of the collection clauses: what they make of the loaded value (each clause must carry its own operand)
+        for colname, opname, keykey, valkey in got.get("set", []):
+            col = by_db[colname]
+            if col.collection:
+                effect[colname] = _fold(col, effect.get(colname, _canon_of(col, exp["old"].get(colname))), opname, keykey, valkey)
+        for colname, keykey in got.get("targets", []):
+            col = by_db[colname]
+            if col.collection:
+                effect[colname] = _fold(col, effect.get(colname, _canon_of(col, exp["old"].get(colname))), "delete" if keykey is None else "delelem", keykey, None)
         # values: only scalars of the column's own old/new value
         for lhs, where, scal in own:
             if where in ("set", "delete"):
@@ -1272,6 +1338,13 @@ def check_instance(ctx, exp, observed, by_db, pks, tags):
                         ctx.fail(["C37.instance.value", where], "the %s clause on %r carries %r which is neither in the old nor in the new value of that column" % (where, lhs, s))
                         return None
         check_owners(ctx, [o for o in own if o[1] in ("where", "if")], tags)
+    for colname, result in sorted(effect.items()):
+        col = by_db[colname]
+        want = _canon_of(col, exp["new"].get(colname))
+        if _same_collection(col, result, want):
+            continue
+        ctx.fail(["C37.instance.effect", col.kind], "the clauses sent for %r turn the loaded value %s into %s, the instance holds %s" % (
+            colname, _short(exp["old"].get(colname)), _short(result), _short(exp["new"].get(colname))))
     really_changed = [c for c in changed if json.dumps(exp["old"].get(c), sort_keys=True) != json.dumps(exp["new"].get(c), sort_keys=True)]
     lost = [c for c in really_changed if c not in touched]
     invented = [c for c in touched if c not in changed]
